@@ -104,6 +104,14 @@ def run(tier, replay=None):
              "dup": [("tools/call", "dup-echo", '{"jsonrpc":"2.0","id":890,"method":"tools/call","params":{"name":"echo","arguments":{"nonce":"d"}}}'),
                      ("prompts/get", "dup-prompt", '{"jsonrpc":"2.0","id":891,"method":"prompts/get","params":{"name":"p-dup"}}'),
                      ("resources/read", "dup-resource", '{"jsonrpc":"2.0","id":892,"method":"resources/read","params":{"uri":"r://dup"}}')]}
+    # the answer to a request does not depend on the requests before it: a well-formed request of a method directly followed by
+    # the same request without its params, several times over
+    seq = []
+    for k in range(6):
+        for j, m in enumerate(("tools/call", "prompts/get", "resources/read")):
+            seq.append((m, "after-ok:ok", rc.body_for(m, "ok", 900 + 10 * k + 2 * j)[0]))
+            seq.append((m, "after-ok:absent", rc.body_for(m, "absent", 901 + 10 * k + 2 * j)[0]))
+    EXTRA["rich"] = EXTRA["rich"] + seq
     for regset in sets:
         items, meta = [], []
         for n, (m, pc, idk, expect) in enumerate(classes):
